@@ -70,6 +70,18 @@ static void do_log(int nice)
 	else mlog(fmts[id % NFMT], a[0], a[1], a[2]);
 	printf("{\"e\":\"%s\",\"id\":%lu}\n", nice ? "Nice" : "Log", id);
 }
+/* mlog_nice whose first argument is a call that itself logs a message: arguments are evaluated before the call, so the
+ * inner message counts when mlog_nice decides whether there is room */
+static unsigned long logging_arg(unsigned long v) { do_log(0); return v; }
+static void do_nice_nested(void)
+{
+	unsigned long id = (nextid + 1) % (1ul << 30);        /* the inner message takes nextid, the nice message the one after */
+	uintptr_t a[3];
+	args_of(id, a);
+	mlog_nice(fmts[id % NFMT], logging_arg(a[0]), a[1], a[2]);
+	nextid = (id + 1) % (1ul << 30);
+	printf("{\"e\":\"Nice\",\"id\":%lu}\n", id);
+}
 /* n messages in a row with nothing read in between: one event */
 static void do_burst(unsigned long n)
 {
@@ -171,6 +183,13 @@ int main(void)
 				do_log(0);
 				do_readsome();
 				if (i % 50 == 0 || i % 256 == 255) do_dump();
+			}
+		}
+		else if (drv_is(&c, "NestedNice")) {
+			for (int pre = 250; pre <= 258; pre++) {
+				do_clear();
+				for (int i = 0; i < pre; i++) do_log(0);
+				do_nice_nested(); do_readsome(); do_nice_nested(); do_readsome(); do_dump();
 			}
 		}
 		else if (drv_is(&c, "Burst")) do_burst((unsigned long)drv_arg(&c, 0));
